@@ -613,7 +613,7 @@ fn apply(st: &mut State, line: &str, out: &mut String) {
         }
         "qry" => {
             if let Some(w) = st.worlds[u(1)].as_mut() {
-                let (mut rows, flag) = run_query(w, u(2));
+                let (mut rows, flag) = run_query(w, u(2), if t.len() > 5 { u(5) } else { 0 });
                 rows.sort();
                 let mut r = String::from("rows");
                 for x in &rows {
@@ -632,6 +632,39 @@ fn apply(st: &mut State, line: &str, out: &mut String) {
             opline = format!("op eqry {} {}:{} {}", t[1], i, g, t[3..].join(" "));
             if let Some(w) = st.worlds[u(1)].as_mut() {
                 ret = match run_entry_query(w, mk_id(i, g), u(3)) {
+                    None => "noentry".into(),
+                    Some(None) => "nomatch".into(),
+                    Some(Some(r)) => format!("row {}", if r.is_empty() { "_".to_string() } else { r }),
+                };
+            }
+        }
+        "pqry" => {
+            if let Some(w) = st.worlds[u(1)].as_mut() {
+                let (mut rows, flag) = run_par_query(w, u(2));
+                rows.sort();
+                let mut r = String::from("rows");
+                for x in &rows {
+                    r.push(' ');
+                    r.push_str(if x.is_empty() { "_" } else { x });
+                }
+                if let Some(f) = flag {
+                    r.push_str(" !");
+                    r.push_str(&f);
+                }
+                ret = r;
+            }
+        }
+        "pqwr" => {
+            if let Some(w) = st.worlds[u(1)].as_mut() {
+                ret = format!("n {}", run_par_query_write(w, u(2), v64(3)));
+            }
+        }
+        "nqry" => {
+            // nqry ws id k <E> <S> <F>
+            let (i, g) = parse_target(t[2], &st.issued);
+            opline = format!("op nqry {} {}:{} {}", t[1], i, g, t[3..].join(" "));
+            if let Some(w) = st.worlds[u(1)].as_mut() {
+                ret = match run_entries_query(w, mk_id(i, g), u(3)) {
                     None => "noentry".into(),
                     Some(None) => "nomatch".into(),
                     Some(Some(r)) => format!("row {}", if r.is_empty() { "_".to_string() } else { r }),
@@ -760,6 +793,8 @@ fn main() {
         Box::new(std::io::BufReader::new(std::io::stdin()))
     };
     std::panic::set_hook(Box::new(|_| {}));
+    let threads: usize = std::env::var("VERIF_POOL").ok().and_then(|s| s.parse().ok()).unwrap_or(4);
+    let _ = rayon::ThreadPoolBuilder::new().num_threads(threads).build_global();
     let stdout = std::io::stdout();
     let mut so = std::io::BufWriter::new(stdout.lock());
     let mut st = State {
